@@ -2,6 +2,7 @@ package c17
 
 import (
 	"os"
+	"strings"
 	"testing"
 
 	"pgregory.net/rapid"
@@ -28,7 +29,13 @@ func opGen(kinds []string) *rapid.Generator[Op] {
 func seqGen() *rapid.Generator[Case] {
 	og := opGen([]string{"register", "register", "register", "named", "named", "list", "render", "styles", "hold", "hold", "renderheld", "renderheld"})
 	return rapid.Custom(func(t *rapid.T) Case {
-		return Case{Kind: "seq", Prefix: rapid.SampledFrom(prefixes).Draw(t, "prefix"), Ops: rapid.SliceOfN(og, 1, 20).Draw(t, "ops")}
+		c := Case{Kind: "seq", Prefix: rapid.SampledFrom(prefixes).Draw(t, "prefix"), Ops: rapid.SliceOfN(og, 1, 20).Draw(t, "ops")}
+		for i := range c.Ops {
+			if c.Ops[i].K == "register" && gen.Rarely(t, "empty", 8) {
+				c.Ops[i].Val = -1 // the empty decoration
+			}
+		}
+		return c
 	})
 }
 
@@ -55,8 +62,39 @@ func unknownGen() *rapid.Generator[Case] {
 	nm := rapid.Custom(func(t *rapid.T) gen.Str {
 		return gen.Str(gen.StringOf([]string{"", "utf8", "utf8-light ", "UTF8-LIGHT", "none.", "texttable", "csv", "x", "-", "utf8-heavy\x00", " ", "ascii", "ascii-simple-", "Z"}, 0, 2).Draw(t, "name"))
 	})
+	// look-alikes of the names that ARE registered: qualified, padded, re-cased, truncated, doubled
+	variant := rapid.Custom(func(t *rapid.T) gen.Str {
+		base := rapid.SampledFrom(gen.BuiltinDecos).Draw(t, "base")
+		switch rapid.IntRange(0, 11).Draw(t, "variant") {
+		case 0:
+			return gen.Str("texttable." + base)
+		case 1:
+			return gen.Str(base + ".x")
+		case 2:
+			return gen.Str("." + base)
+		case 3:
+			return gen.Str(base + " ")
+		case 4:
+			return gen.Str(" " + base)
+		case 5:
+			return gen.Str(strings.ToUpper(base))
+		case 6:
+			return gen.Str(strings.ToUpper(base[:1]) + base[1:])
+		case 7:
+			return gen.Str(base[:len(base)-1])
+		case 8:
+			return gen.Str(base + base)
+		case 9:
+			return gen.Str("decoration." + base)
+		case 10:
+			return gen.Str(base + "\n")
+		}
+		return gen.Str("auto." + base)
+	})
 	return rapid.Custom(func(t *rapid.T) Case {
-		return Case{Kind: "unknown", Names: append([]gen.Str{""}, rapid.SliceOfN(nm, 1, 5).Draw(t, "names")...)}
+		names := append([]gen.Str{""}, rapid.SliceOfN(nm, 1, 5).Draw(t, "names")...)
+		names = append(names, rapid.SliceOfN(variant, 1, 4).Draw(t, "variants")...)
+		return Case{Kind: "unknown", Names: names}
 	})
 }
 
